@@ -286,10 +286,10 @@ func Compact(s *Simple) *Encoding {
 
 // SimpleInfo describes how a decoded simple glyph was stored.
 type SimpleInfo struct {
-	Used      int  // bytes of the description actually used
-	Overlap   bool // OVERLAP_SIMPLE on the first flag
-	Repeats   int  // number of flag bytes with REPEAT_FLAG
-	ZeroCount int  // ... of these with a repeat count of 0
+	Used                           int  // bytes of the description actually used
+	Overlap                        bool // OVERLAP_SIMPLE on the first flag
+	Repeats                        int  // number of flag bytes with REPEAT_FLAG
+	ZeroCount                      int  // ... of these with a repeat count of 0
 	ShortPos, ShortNeg, Long, Same int
 }
 
